@@ -1,7 +1,11 @@
 """C04 — template expansion computes what the template language says.
 Proof: coq/C04 (reference semantics `eval` of the template language vs the model of evaluate.pyx/nodes.pyx on the
 expected parse `compile p`; shunting-yard of expr.py vs evaluation of the expression tree, operator table generated
-from expr.py).  Tie: real parser vs `compile`, Expander vs `eval`, `{{#expr:..}}` vs the extracted parser model."""
+from expr.py).  '=' in text leaves: `compile_r` (Model.v) is the real parse with the '=' of argument texts cut out as eqmark;
+ProofsEq.v: compile_r = compile without '=', and the model on compile_r computes `eval` for text / parameter defaults / #if / #ifeq /
+calls with positional and ` k = v ` arguments whose texts contain '=' (C04_eval_correct_eq_text_partial).
+Tie: real parser vs `compile_r`, Expander vs `eval`, Expander vs the flatten model on compile_r, `{{#expr:..}}` vs the extracted
+parser model.  The generator puts '=' into text leaves wherever the language defines it to be text (and blanks around argument names)."""
 import json
 
 from vt import core
